@@ -202,6 +202,23 @@ Section WMeanPos.
     replace (rho' - rho) with ((l0 - rho) - (l0 - rho')) by ring.
     rewrite Rabs_pos_eq by lra. lra.
   Qed.
+  (* the weighted second moment about l0 is at most (1+g) l0 times the first: used for the
+     eigenvector residual (Part 4) *)
+  Lemma wm_var_pos :
+    rsum (S m) (fun i => w i * ((l i - l0) * (l i - l0))) <= (1 + g) * l0 * (Rabs (rho - l0) * S0).
+  Proof.
+    rewrite wm_abs1, wm_e1. rewrite rsum_shift. fold l0.
+    replace (w 0%nat * ((l0 - l0) * (l0 - l0))) with 0 by ring. rewrite Rplus_0_l.
+    unfold Td. rewrite <- rsum_scal. apply rsum_le. intros i Hi.
+    destruct (wm_tail_bounds i Hi) as [Hb [_ Hd]]. pose proof (Hw i Hi) as Hwi.
+    set (d := l0 - l (S i)) in *.
+    assert (Hd2 : d <= (1 + g) * l0) by (unfold d; lra).
+    assert (Hl0' : 0 < l0) by exact Hl0.
+    assert (H1 : d * d <= (1 + g) * l0 * d) by nra.
+    replace ((l (S i) - l0) * (l (S i) - l0)) with (d * d) by (unfold d; ring).
+    replace ((1 + g) * l0 * (w (S i) * d)) with (w (S i) * ((1 + g) * l0 * d)) by ring.
+    apply Rmult_le_compat_l; assumption.
+  Qed.
 End WMeanPos.
 
 (* either sign of the dominant value: the case l 0 < 0 is the case l 0 > 0 of -l *)
@@ -251,6 +268,38 @@ Proof.
     assert (Ea : Rabs (l 0%nat) = l 0%nat) by (apply Rabs_pos_eq; lra).
     rewrite Ea. rewrite Ea in Hgap.
     exact (wm_pos_summary m w l g Hw0 Hw Hpos Hg Hgap).
+Qed.
+
+Lemma wm_var_summary (m : nat) (w l : nat -> R) (g : R) :
+  0 < w 0%nat -> (forall i, (i < m)%nat -> 0 <= w (S i)) -> l 0%nat <> 0 -> 0 <= g <= 1 / 2 ->
+  (forall i, (i < m)%nat -> Rabs (l (S i)) <= g * Rabs (l 0%nat)) ->
+  let rho := rsum (S m) (fun i => w i * l i) / rsum (S m) w in
+  rsum (S m) (fun i => w i * ((l i - l 0%nat) * (l i - l 0%nat))) <=
+  (1 + g) * Rabs (l 0%nat) * (Rabs (rho - l 0%nat) * rsum (S m) w).
+Proof.
+  intros Hw0 Hw Hl0 Hg Hgap. cbv zeta.
+  destruct (Rtotal_order (l 0%nat) 0) as [Hneg|[Hz|Hpos]]; [|exact (False_ind _ (Hl0 Hz))|].
+  - set (l' := fun i => - l i).
+    assert (Hl0' : 0 < l' 0%nat) by (unfold l'; lra).
+    assert (Ea : Rabs (l 0%nat) = l' 0%nat) by (unfold l'; apply Rabs_left; exact Hneg).
+    assert (Hgap' : forall i, (i < m)%nat -> Rabs (l' (S i)) <= g * l' 0%nat).
+    { intros i Hi. unfold l' at 1. rewrite Rabs_Ropp, <- Ea. apply Hgap. exact Hi. }
+    pose proof (wm_var_pos m w l' g Hw0 Hw Hl0' Hg Hgap') as HP.
+    assert (E1 : rsum (S m) (fun i => w i * l' i) = - rsum (S m) (fun i => w i * l i)).
+    { rewrite (rsum_ext (S m) (fun i => w i * l' i) (fun i => (-1) * (w i * l i)))
+        by (intros; unfold l'; ring). rewrite rsum_scal. ring. }
+    assert (E2 : rsum (S m) (fun i => w i * ((l' i - l' 0%nat) * (l' i - l' 0%nat))) =
+                 rsum (S m) (fun i => w i * ((l i - l 0%nat) * (l i - l 0%nat)))).
+    { apply rsum_ext. intros; unfold l'; ring. }
+    rewrite E1, E2 in HP. rewrite Ea.
+    set (rho := rsum (S m) (fun i => w i * l i) / rsum (S m) w) in *.
+    replace (- rsum (S m) (fun i => w i * l i) / rsum (S m) w) with (- rho) in HP
+      by (unfold rho, Rdiv; ring).
+    replace (- rho - l' 0%nat) with (- (rho - l 0%nat)) in HP by (unfold l'; ring).
+    rewrite Rabs_Ropp in HP. exact HP.
+  - assert (Ea : Rabs (l 0%nat) = l 0%nat) by (apply Rabs_pos_eq; lra).
+    rewrite Ea. rewrite Ea in Hgap.
+    exact (wm_var_pos m w l g Hw0 Hw Hpos Hg Hgap).
 Qed.
 
 (* ======================= Part 2: the model's estimates ============================ *)
@@ -388,6 +437,100 @@ Section EigenStop.
   Proof.
     intros H1 H2 Hk. apply (stop_rule_accuracy_sec k rho x rho' x' tol H1 H2).
     exact (basin_after k rho x H1 Hk).
+  Qed.
+  (* ---- Part 4 (gap (b)): the eigenvector residual ---------------------------------- *)
+  Lemma dot_ypow k : rsum n (fun s => ypow n M k s ^ 2) = rsum n (wk k).
+  Proof.
+    pose proof (ypow_expand n A q lam c Heig Hones) as HE. fold M in HE.
+    rewrite (rsum_ext n _ (fun s => ypow n M k s * ypow n M k s)) by (intros; ring).
+    change (rsum n (fun s => ypow n M k s * ypow n M k s)) with (dotf n (ypow n M k) (ypow n M k)).
+    rewrite (parseval n q Horth _ _ _ _ (HE k) (HE k)).
+    apply rsum_ext. intros; unfold wk; ring.
+  Qed.
+
+  Lemma dot_ypow_pos k : 0 < rsum n (fun s => ypow n M k s ^ 2).
+  Proof.
+    rewrite dot_ypow. assert (En : n = S (n - 1)) by lia. rewrite En, rsum_shift.
+    pose proof (wk0_pos k).
+    assert (0 <= rsum (n - 1) (fun i => wk k (S i))).
+    { apply rsum_nonneg. intros; unfold wk; apply pow2_ge_0. }
+    lra.
+  Qed.
+
+  (* ||A y - mu y||^2 in eigen-coordinates, y = y_k *)
+  Lemma resid_ypow k mu :
+    rsum n (fun s => (mvf n M (ypow n M k) s - mu * ypow n M k s) ^ 2) =
+    rsum n (fun i => wk k i * ((lam i - mu) * (lam i - mu))).
+  Proof.
+    pose proof (ypow_expand n A q lam c Heig Hones) as HE. fold M in HE.
+    set (z := fun s => mvf n M (ypow n M k) s - mu * ypow n M k s).
+    rewrite (rsum_ext n _ (fun s => z s * z s)) by (intros; unfold z; ring).
+    change (rsum n (fun s => z s * z s)) with (dotf n z z).
+    assert (Hz : forall t, (t < n)%nat ->
+              z t = rsum n (fun i => (c i * lam i ^ S k * (lam i - mu)) * q i t)).
+    { intros t Ht. unfold z. change (mvf n M (ypow n M k)) with (ypow n M (S k)).
+      rewrite (HE (S k) t Ht), (HE k t Ht).
+      rewrite (rsum_ext n (fun i => c i * lam i ^ S k * (lam i - mu) * q i t)
+                 (fun i => c i * lam i ^ S (S k) * q i t + (-1) * (mu * (c i * lam i ^ S k * q i t)))).
+      2:{ intros i Hi. change (lam i ^ S (S k)) with (lam i * lam i ^ S k). ring. }
+      rewrite rsum_plus, !rsum_scal. ring. }
+    rewrite (parseval n q Horth _ _ _ _ Hz Hz).
+    apply rsum_ext. intros; unfold wk; ring.
+  Qed.
+
+  (* residual of y_k against its own Rayleigh quotient *)
+  Lemma resid_ypow_bound k :
+    let rho := rqf n M (ypow n M k) in
+    rsum n (fun s => (mvf n M (ypow n M k) s - rho * ypow n M k s) ^ 2) <=
+    (1 + g) * Rabs (lam 0%nat) * Rabs (rho - lam 0%nat) * rsum n (fun s => ypow n M k s ^ 2).
+  Proof.
+    cbv zeta.
+    destruct (rayleigh_residual n M (ypow n M k)) as [_ Hmin]. cbv zeta in Hmin.
+    eapply Rle_trans; [exact (Hmin (lam 0%nat))|].
+    rewrite resid_ypow, dot_ypow, rqf_ypow_wmean.
+    assert (En : n = S (n - 1)) by lia. rewrite En.
+    eapply Rle_trans.
+    - apply (wm_var_summary (n - 1) (wk k) lam g).
+      + apply wk0_pos.
+      + intros i Hi. unfold wk. apply pow2_ge_0.
+      + exact Hl0.
+      + exact Hg.
+      + intros i Hi. apply Hgap. lia.
+    - right. ring.
+  Qed.
+
+  (* the model's state k: rho is the Rayleigh quotient of x (the SAME vector), x = y_k / P *)
+  Lemma residual_bound_sec k rho x :
+    pm_state A k = Ok (rho, x) ->
+    let xi := fun i => aget x i 0 in
+    0 < rsum n (fun s => xi s ^ 2) /\
+    rho = rqf n M xi /\
+    rsum n (fun s => (mvf n M xi s - rho * xi s) ^ 2) <=
+    (1 + g) * Rabs (lam 0%nat) * Rabs (rho - lam 0%nat) * rsum n (fun s => xi s ^ 2).
+  Proof.
+    intro H. cbv zeta.
+    destruct (pm_state_ypow n A q lam c Hn HA1 HA2 Horth Heig Hones Hc0 Hl0 k) as [P [x' [HP [Hst [_ Hx]]]]].
+    fold M in Hst, Hx. rewrite Hst in H. injection H as <- <-.
+    set (y := ypow n M k) in *. set (r := rqf n M y).
+    assert (HiP : / P <> 0) by (apply Rinv_neq_0_compat; exact HP).
+    assert (Hxs : forall t, (t < n)%nat -> aget x' t 0 = / P * y t).
+    { intros t Ht. rewrite (Hx t Ht). unfold Rdiv. ring. }
+    assert (Hmv : forall s, (s < n)%nat -> mvf n M (fun i => aget x' i 0) s = / P * mvf n M y s).
+    { intros s Hs. rewrite (mvf_ext n M _ (fun t => / P * y t) s Hxs). apply mvf_scale. }
+    assert (EV : rsum n (fun s => aget x' s 0 ^ 2) = (/ P) ^ 2 * rsum n (fun s => y s ^ 2)).
+    { rewrite <- rsum_scal. apply rsum_ext. intros s Hs. rewrite (Hxs s Hs). ring. }
+    assert (ER : rsum n (fun s => (mvf n M (fun i => aget x' i 0) s - r * aget x' s 0) ^ 2) =
+                 (/ P) ^ 2 * rsum n (fun s => (mvf n M y s - r * y s) ^ 2)).
+    { rewrite <- rsum_scal. apply rsum_ext. intros s Hs. rewrite (Hmv s Hs), (Hxs s Hs). ring. }
+    assert (HP2 : 0 < (/ P) ^ 2) by nra.
+    split; [|split].
+    - rewrite EV. apply Rmult_lt_0_compat; [exact HP2|apply dot_ypow_pos].
+    - unfold r. rewrite (rqf_ext n M _ (fun t => / P * y t) Hxs). symmetry. apply rqf_scale. exact HiP.
+    - rewrite ER, EV. pose proof (resid_ypow_bound k) as HB. cbv zeta in HB. fold y r in HB.
+      apply Rle_trans with ((/ P) ^ 2 * ((1 + g) * Rabs (lam 0%nat) * Rabs (r - lam 0%nat) *
+                                         rsum n (fun s => y s ^ 2))).
+      + apply Rmult_le_compat_l; [lra|exact HB].
+      + right. ring.
   Qed.
 End EigenStop.
 
